@@ -101,11 +101,11 @@ func init() {
 		},
 	})
 	def("C06", &propertyDef{
-		Decides:    "import stores a resource only when absent, differing redefinitions return an error (INC-1); the default `.env` of an included project is the one of its project directory (INCENV); every field of loader.Options is copied, from the field of the same name, by (*Options).clone, so a nested load (include, extends) runs under the switches the caller set (CLONE); every entry of an include section is loaded: no iteration over the entries reaches the next without the nested load (REFS); the resource kinds imported / named / rendered equal the resource maps of types.Project (A10); the include chain is compared, extended and handed to the nested load (CYC); the nested load works on cloned options with ResolvePaths, SkipNormalization and SkipConsistencyCheck forced, its environment is Clone(parent).Merge(env file) (INC-4); `include` is deleted and the nested model imported on every success path (INC-5); included env_file errors are propagated (ERR); a secret / config attribute is filled from the environment only on the ok edge of the lookup, so the second pass over an imported model (parent environment only) cannot blank what the included project's own environment resolved (ENVPRES). A relative env_file / project_directory of an include entry is anchored at the directory of the local resource loader, not at the (below the first level: relative) workingDir parameter alone (INC-6). Environment-sourced attributes are resolved by every (nested) model load, in loadYamlModel, where the included project's own environment is in force (PIPE: the ResolveEnvironment stage). The directory a resource loader names for an included file (the working directory of the nested load) is computed from filepath.Dir of the path, or is the path where an is-a-directory test of it succeeded: no return of a Dir implementation hands the argument back as given (LOADERDIR).",
+		Decides:    "import stores a resource only when absent, differing redefinitions return an error (INC-1); the default `.env` of an included project is the one of its project directory (INCENV); every field of loader.Options is copied, from the field of the same name, by (*Options).clone, so a nested load (include, extends) runs under the switches the caller set (CLONE); every entry of an include section is loaded: no iteration over the entries reaches the next without the nested load (REFS); the resource kinds imported / named / rendered equal the resource maps of types.Project (A10); the include chain is compared, extended and handed to the nested load (CYC); the nested load works on cloned options with ResolvePaths, SkipNormalization and SkipConsistencyCheck forced, its environment is Clone(parent).Merge(env file) (INC-4); `include` is deleted and the nested model imported on every success path (INC-5); included env_file errors are propagated (ERR); a secret / config attribute is filled from the environment only on the ok edge of the lookup, so the second pass over an imported model (parent environment only) cannot blank what the included project's own environment resolved (ENVPRES). A relative env_file / project_directory of an include entry is anchored at the directory of the local resource loader, not at the (below the first level: relative) workingDir parameter alone (INC-6). Environment-sourced attributes are resolved by every (nested) model load, in loadYamlModel, where the included project's own environment is in force (PIPE: the ResolveEnvironment stage). The directory a resource loader names for an included file (the working directory of the nested load) is computed from filepath.Dir of the path, or is the path where an is-a-directory test of it succeeded: no return of a Dir implementation hands the argument back as given (LOADERDIR). What the load of an included model adds to a config / secret after its own validation (the value resolved from the environment) is not an attribute the exclusivity check of that section counts, so the imported resource validates again in the including model (REVALID).",
 		NotDecided: "equivalence with the pasted model; directory anchoring values.",
-		Rules:      []string{"INC", "A10", "CYC", "ERR", "REFS", "CLONE", "INCENV", "ENVPRES", "PIPE", "LOADERDIR"},
+		Rules:      []string{"INC", "A10", "CYC", "ERR", "REFS", "CLONE", "INCENV", "ENVPRES", "PIPE", "LOADERDIR", "REVALID"},
 		Run: func(c *rules.Ctx) []report.Obligation {
-			return cat(c.LOADERDIR("LOADERDIR"), c.PIPE("PIPE", stageIn("loader.ResolveEnvironment")), c.ENVPRES("ENVPRES"), c.INCENV("INCENV"), c.CLONE("CLONE"), c.INC("INC"), c.A10("A10"), rules.Only(c.CYC("CYC"), "include ::"), rules.Only(c.ERR("ERR", "LOAD"), "loader.ApplyInclude ::"), rules.Only(c.REFS("REFS", "loader"), "loader.ApplyInclude ::"),
+			return cat(c.REVALID("REVALID"), c.LOADERDIR("LOADERDIR"), c.PIPE("PIPE", stageIn("loader.ResolveEnvironment")), c.ENVPRES("ENVPRES"), c.INCENV("INCENV"), c.CLONE("CLONE"), c.INC("INC"), c.A10("A10"), rules.Only(c.CYC("CYC"), "include ::"), rules.Only(c.ERR("ERR", "LOAD"), "loader.ApplyInclude ::"), rules.Only(c.REFS("REFS", "loader"), "loader.ApplyInclude ::"),
 				c.RangeGuard("INC-4", "types.(Mapping).Merge", true))
 		},
 	})
@@ -161,11 +161,11 @@ func init() {
 		},
 	})
 	def("C13", &propertyDef{
-		Decides:    "the spawn in visit is gated by ready then enter; in the spawned closure the visitor precedes done, done precedes the hand-off send, and every exit sends (TRV-1/2); ready returns true only after the loop over all dependencies and the direction tables are mirror images (TRV-4); vertexVisited is stored only in done, enter is a test-and-set (TRV-5); status and results are accessed only under the mutex, in the constructor or after the join (R3); walk returns eg.Wait() after any spawn, channel capacity is len-derived with one send per closure (FAN); the cycle error returns before walk (TRV-7) and the cycle search compares every child with the current path before anything can prune it, recursing only when it is not on the path (CYC); the errgroup limit is maxConcurrency + the coordinator (TRV-10); the coordinator's counter starts at the number of vertices, drops by one per received vertex and stops the coordinator at zero (TRV-8); a skipped vertex is decided from state that the walk does not change (TRV-11); every mutex or semaphore slot taken is given back on every path to an exit (PAIR); fields of graph/vertex/Options are not written in the concurrent phase (RONLY); the traversal does not write through the *Project argument (IMM-I1). A limit set on an errgroup has one extra slot per closure that only waits for the others, and that closure is started on every path that reaches Wait (FAN-LIMIT). Package graph writes nothing through the service copy a vertex carries (TRV-9b): its maps are the project's own.",
+		Decides:    "the spawn in visit is gated by ready then enter; in the spawned closure the visitor precedes done, done precedes the hand-off send, and every exit sends (TRV-1/2); ready returns true only after the loop over all dependencies and the direction tables are mirror images (TRV-4); vertexVisited is stored only in done, enter is a test-and-set (TRV-5); status and results are accessed only under the mutex, in the constructor or after the join (R3); walk returns eg.Wait() after any spawn, channel capacity is len-derived with one send per closure (FAN); the cycle error returns before walk (TRV-7) and the cycle search compares every child with the current path before anything can prune it, recursing only when it is not on the path (CYC); the errgroup limit is maxConcurrency + the coordinator (TRV-10); the coordinator's counter starts at the number of vertices, drops by one per received vertex and stops the coordinator at zero (TRV-8); a skipped vertex is decided from state that the walk does not change (TRV-11); every mutex or semaphore slot taken is given back on every path to an exit (PAIR); fields of graph/vertex/Options are not written in the concurrent phase (RONLY); the traversal does not write through the *Project argument (IMM-I1). A limit set on an errgroup has one extra slot per closure that only waits for the others, and that closure is started on every path that reaches Wait (FAN-LIMIT). Package graph writes nothing through the service copy a vertex carries (TRV-9b): its maps are the project's own. The extra slot of the limit stays taken as long as walk may start a visit: a return of the coordinating closure taken because the context was cancelled is preceded by a receive from a channel that walk closes after the last point where it starts a visit (FAN-SLOT).",
 		NotDecided: "liveness under every completion order, exactly-once, the interleaving space itself: the domain of model checking / schedule exploration.",
-		Rules:      []string{"TRV", "R3", "FAN", "RONLY", "IMM", "PAIR", "CYC", "FAN-LIMIT"},
+		Rules:      []string{"TRV", "R3", "FAN", "RONLY", "IMM", "PAIR", "CYC", "FAN-LIMIT", "FAN-SLOT"},
 		Run: func(c *rules.Ctx) []report.Obligation {
-			return cat(c.TRVPayload("TRV-9b"), c.FanLimit("FAN-LIMIT"), rules.Only(c.CYC("CYC"), "depends_on ::"), c.TRV("TRV"), c.R3("R3", "graph"), c.FanOut("FAN", "graph"),
+			return cat(c.FanSlot("FAN-SLOT"), c.TRVPayload("TRV-9b"), c.FanLimit("FAN-LIMIT"), rules.Only(c.CYC("CYC"), "depends_on ::"), c.TRV("TRV"), c.R3("R3", "graph"), c.FanOut("FAN", "graph"),
 				c.ROnly("RONLY", "graph", []string{"graph.walk"}, map[string]bool{"traversal.status": true, "traversal.results": true}), c.TRVSkip("TRV-11"), c.TRVCount("TRV-8"), c.PAIR("PAIR", "graph"), c.IMMGraph("IMM"))
 		},
 	})
@@ -212,11 +212,11 @@ func init() {
 		},
 	})
 	def("C19", &propertyDef{
-		Decides:    "no package-level variable is written outside init (GLOB); for every function that spawns goroutines: state written by a spawned closure is not touched by the spawner between spawn and Wait nor by a sibling closure without a common mutex (R2), the owner returns Wait()'s error on every path after a spawn (R4), channels sent on from closures have len-derived capacity and one send per closure (R5); mutex-guarded fields are only accessed under the mutex, in constructors or after the join (R3); graph structures are read-only during the walk (RONLY); the structure of the dependency-ordered traversal (gating by ready then enter, visitor before done before hand-off, status values, counter, limit) as in C13 (TRV). Wherever a limit is set on an errgroup on which a collector that only receives is started, the limit counts the collector (n + 1) and the collector is started before every Wait (FAN-LIMIT). A package-level variable that is written while a package-level mutex is held is also read only while that mutex is held (GLOB-read: loader.versionWarning under versionWarningMu).",
+		Decides:    "no package-level variable is written outside init (GLOB); for every function that spawns goroutines: state written by a spawned closure is not touched by the spawner between spawn and Wait nor by a sibling closure without a common mutex (R2), the owner returns Wait()'s error on every path after a spawn (R4), channels sent on from closures have len-derived capacity and one send per closure (R5); mutex-guarded fields are only accessed under the mutex, in constructors or after the join (R3); graph structures are read-only during the walk (RONLY); the structure of the dependency-ordered traversal (gating by ready then enter, visitor before done before hand-off, status values, counter, limit) as in C13 (TRV). Wherever a limit is set on an errgroup on which a collector that only receives is started, the limit counts the collector (n + 1) and the collector is started before every Wait (FAN-LIMIT). A package-level variable that is written while a package-level mutex is held is also read only while that mutex is held (GLOB-read: loader.versionWarning under versionWarningMu). The coordinating closure of a limited errgroup keeps its slot on cancellation until the starter has stopped starting workers (FAN-SLOT).",
 		NotDecided: "data-race freedom of dependencies (logrus, gojsonschema globals); that each load returns what it would return alone beyond the absence of shared writable state; channel happens-before is not modelled.",
-		Rules:      []string{"GLOB", "FAN", "R3", "RONLY", "PAIR", "INPUTS", "TRV", "FAN-LIMIT"},
+		Rules:      []string{"GLOB", "FAN", "R3", "RONLY", "PAIR", "INPUTS", "TRV", "FAN-LIMIT", "FAN-SLOT"},
 		Run: func(c *rules.Ctx) []report.Obligation {
-			return cat(c.FanLimit("FAN-LIMIT"), c.TRV("TRV"), c.GLOB("GLOB"), c.FanOut("FAN"), c.R3("R3", "graph", "types"), c.PAIR("PAIR", "graph", "loader"), c.INPUTS("INPUTS"),
+			return cat(c.FanSlot("FAN-SLOT"), c.FanLimit("FAN-LIMIT"), c.TRV("TRV"), c.GLOB("GLOB"), c.FanOut("FAN"), c.R3("R3", "graph", "types"), c.PAIR("PAIR", "graph", "loader"), c.INPUTS("INPUTS"),
 				c.ROnly("RONLY", "graph", []string{"graph.walk"}, map[string]bool{"traversal.status": true, "traversal.results": true}))
 		},
 	})
